@@ -144,9 +144,13 @@ def run(tier):
         for n in rep.notes[n0:]:
             f = n.split('\t')
             if f[0] == 'bfs' and len(f) == 5:
-                maxl[f[1]] = max(maxl.get(f[1], 0), int(f[2]))
-                tr += int(f[3])
-                ex += int(f[4])
+                try:    # a process that died in the middle of printing leaves a truncated line behind
+                    a2, a3, a4 = int(f[2]), int(f[3]), int(f[4])
+                except ValueError:
+                    continue
+                maxl[f[1]] = max(maxl.get(f[1], 0), a2)
+                tr += a3
+                ex += a4
         st = sum(maxl.values())
         if cfg.startswith('chacha:') and tr == 0:
             # every process of this build died in its first transition(s): the crashed calls are the executions
